@@ -753,6 +753,37 @@ def totality_cases(tier):
         ("signal-tags", "pragma circom 2.1.0;\ntemplate Main() { signal input {binary} x; signal output {binary, maxbit} y; y <== x; }\ncomponent main = Main();\n", []),
         ("bus-like-underscore-names", T("var _ = 1; var __a = 2;\ny <== x + __a;"), []),
     ]
+    # shapes aimed at the individual analysis passes
+    LIB = ("template Num2Bits(n) { signal input in; signal output out[n]; for (var i = 0; i < n; i++) { out[i] <-- (in >> i) & 1; out[i] * (out[i] - 1) === 0; } }\n"
+           "template LessThan(n) { signal input in[2]; signal output out; out <-- in[0] < in[1]; }\n")
+    cases += [
+        ("division-by-signal", T("signal q; q <-- x / y; q * y === x;", "signal input x; signal input y;"), []),
+        ("intdiv-and-mod-by-signal", T("signal q; signal r; q <-- x \\ y; r <-- x % y; q * y + r === x;", "signal input x; signal input y;"), []),
+        ("division-in-constraint", T("y <== x / 3;"), []),
+        ("comparison-of-signals", T("var v = 0; if (x > 5) { v = 1; } y <-- x < 3 ? 1 : 0; y * (y - 1) === 0;"), []),
+        ("bitwise-on-signals", T("y <-- (x & 255) | (~x ^ 3);"), []),
+        ("shift-signal-by-signal", T("y <-- x << x;"), []),
+        ("lessthan-array-of-num2bits", P + LIB + "template Main(n) { signal input a[3]; signal output ok; component n2b[3]; for (var i = 0; i < 3; i++) { n2b[i] = Num2Bits(n); n2b[i].in <== a[i]; } component lt = LessThan(n); lt.in[0] <== a[0]; lt.in[1] <== a[1]; ok <== lt.out; }\ncomponent main = Main(8);\n", []),
+        ("lessthan-same-signal-twice", P + LIB + "template Main() { signal input a; signal output ok; component lt = LessThan(8); lt.in[0] <== a; lt.in[1] <== a; ok <== lt.out; }\ncomponent main = Main();\n", []),
+        ("lessthan-inputs-from-expressions", P + LIB + "template Main() { signal input a; signal output ok; component lt = LessThan(8); lt.in[0] <== a * a; lt.in[1] <== 3; ok <== lt.out; }\ncomponent main = Main();\n", []),
+        ("lessthan-unassigned-inputs", P + LIB + "template Main() { signal input a; signal output ok; component lt = LessThan(8); ok <== lt.out; }\ncomponent main = Main();\n", []),
+        ("num2bits-size-from-expression", P + LIB + "template Main(n) { signal input a; signal output b; component c = Num2Bits(n * 2 + 254); c.in <== a; b <== c.out[0]; }\ncomponent main = Main(1);\n", []),
+        ("multi-dimensional-signals", T("signal s[2][3]; for (var i = 0; i < 2; i++) { for (var j = 0; j < 3; j++) { s[i][j] <== x * (i + j); } } y <== s[1][2];"), []),
+        ("component-matrix", P + "template A() { signal input in; signal output out; out <== in; }\ntemplate Main() { signal input x; signal output y; component c[2][2]; for (var i = 0; i < 2; i++) { for (var j = 0; j < 2; j++) { c[i][j] = A(); c[i][j].in <== x; } } y <== c[1][1].out; }\ncomponent main = Main();\n", []),
+        ("output-never-assigned", T(""), []),
+        ("input-assigned", T("x <== 3;\ny <== x;"), []),
+        ("signal-assigned-twice", T("y <== x;\ny <== x + 1;"), []),
+        ("constraint-without-signals", T("1 === 1;\n2 === 3;\ny <== x;"), []),
+        ("function-return-in-branches", P + "function f(a) { if (a == 0) { return 1; } else { if (a == 1) { return 2; } } return 3; }\ntemplate Main() { signal input x; signal output y; y <== x * f(2); }\ncomponent main = Main();\n", []),
+        ("function-without-return", P + "function f(a) { var b = a; }\ntemplate Main() { signal input x; signal output y; y <== x * f(2); }\ncomponent main = Main();\n", []),
+        ("function-array-result", P + "function f(a) { var r[3]; for (var i = 0; i < 3; i++) { r[i] = a + i; } return r; }\ntemplate Main() { signal input x; signal output y; var t[3] = f(1); y <== x * t[2]; }\ncomponent main = Main();\n", []),
+        ("loop-with-break-like-condition", T("var i = 0; while (i < 10 && x == x) { i++; }\ny <== x * i;"), []),
+        ("postfix-and-compound-ops", T("var i = 0; i++; i--; i += 2; i -= 1; i *= 3; i /= 1; i **= 2; i %= 7; i <<= 1; i >>= 1; i &= 255; i |= 1; i ^= 2; i \\= 1;\ny <== x * i;"), []),
+        ("many-findings-200", T("".join(f"var u{i} = {i};\n" for i in range(200)) + "y <== x;"), []),
+        ("verbose-and-level-error", T("var unused = 1;\ny <-- x;"), ["-v", "--level", "error"]),
+        ("allow-unknown-id", T("var unused = 1;\ny <-- x;"), ["--allow", "CS9999", "--allow", "P0000"]),
+        ("library-directory-missing", T("y <== x;"), ["-L", "/nonexistent-dir-for-test"]),
+    ]
     # lexer-level and byte-level inputs (bytes objects are written verbatim)
     cases += [
         ("hex-without-digits", T("var v = 0x;\ny <== x + v;"), []),
@@ -814,7 +845,7 @@ def suite_totality(exe, tier, seed):
         shutil.rmtree(d, ignore_errors=True)
     return {"unit": "e2e-totality", "evaluations": evals, "distinct_nontrivial": nontrivial, "exhaustive": False,
             "rule": "the real CLI on grammar-valid but unusual programs: it terminates within 60 s with exit status 0 or 1, prints its summary line, and neither panics nor overflows its stack",
-            "bound": "templates with Circomlib's names and every arity 0..3 under the curves; 27 structural oddities, 57 grammar-valid programs with semantic errors (undeclared / duplicate names, wrong arities, anonymous components and tuples in every unusual place, misplaced constructs) and 21 lexer- and byte-level inputs (long and non-ASCII string literals in log, hex prefix without digits, empty file, invalid UTF-8, NUL bytes, BOM, unbalanced brackets, 200 000-character lines, non-ASCII text at error positions; empty bodies, deep nesting of ifs / loops / parentheses / ternaries, 2000-term sums, 200-fold unary chains, 400-digit literals in shifts and powers, division by constant zero, zero-sized arrays, 300 templates, 3000-character identifiers, custom templates)",
+            "bound": "templates with Circomlib's names and every arity 0..3 under the curves; 27 structural oddities, 57 grammar-valid programs with semantic errors (undeclared / duplicate names, wrong arities, anonymous components and tuples in every unusual place, misplaced constructs) 26 shapes aimed at the individual passes and options (divisions and comparisons of signals, LessThan / Num2Bits wiring, component matrices, functions without return, all compound operators, 200 findings, --allow / --level / -L oddities) and 21 lexer- and byte-level inputs (long and non-ASCII string literals in log, hex prefix without digits, empty file, invalid UTF-8, NUL bytes, BOM, unbalanced brackets, 200 000-character lines, non-ASCII text at error positions; empty bodies, deep nesting of ifs / loops / parentheses / ternaries, 2000-term sums, 200-fold unary chains, 400-digit literals in shifts and powers, division by constant zero, zero-sized arrays, 300 templates, 3000-character identifiers, custom templates)",
             "samples": samples, "violations": viol}
 
 
